@@ -239,7 +239,7 @@ def judge_c02(rec):
             bad('accessor-mismatch', 'KILLED but killed()=%s exception()=%s' % (fin['killed'], fin['exception']))
         km = fin['killed_msg']
         text = km[1].get('message') if km[0] == 'ok' and isinstance(km[1], dict) else None
-        if km[0] != 'ok' or text not in facts['kill_texts']:
+        if km[0] != 'ok' or not isinstance(text, (str, type(None))) or text not in facts['kill_texts']:
             bad('kill-text', 'killed_msg() %s carries none of the requested texts %s' % (km, sorted(map(str, facts['kill_texts']))))
         elif fut[0] == 'exception' and fut[1][1] != (text or ''):
             bad('kill-text', 'future KilledError text %r differs from killed_msg text %r' % (fut[1][1], text))
